@@ -240,6 +240,18 @@ def probe(binary, hooks, cfg, orig_port, logfile):
             q(c1, "JOIN #maintopic blabla", "join-preconfigured")
             q(c1, "NAMES #maintopic", "names-preconfigured")
             q(c1, "MODE #maintopic", "mode-preconfigured")
+            # "predefined ... channels": a nickname named in several rank lists of the channel holds every one of them
+            ch0m = ((cfg.get("channels") or [{}])[0]).get("modes", {})
+            if (cfg.get("channels") or [{}])[0].get("name") == "#maintopic":
+                c1.send("CAP REQ :multi-prefix")
+                c1.send("CAP END")
+                nl = q(c1, "NAMES #maintopic", "names-preconfigured-multi-prefix")
+                mine = [w_ for m in nl if m.verb == "353" for w_ in m.params[-1].split() if w_.lstrip("~&@%+") == "probe1"]
+                want = "".join(sym for key, sym in (("founders", "~"), ("protecteds", "&"), ("operators", "@"),
+                                                    ("half_operators", "%"), ("voices", "+"))
+                               if "probe1" in (ch0m.get(key) or []))
+                if mine:
+                    obs.append(("assert:every-configured-rank-held", mine[0][:len(mine[0]) - len("probe1")] == want))
             q(c1, "MODE #maintopic +b", "banlist")
             q(c1, "MODE #maintopic +e", "exceptlist")
             q(c1, "MODE #maintopic +I", "invexlist")
@@ -408,6 +420,11 @@ def validation_cases(binary):
     key = os.path.join(sut.REPO, "test_data", "cert_key.crt")
     add("tls-cert-only-in-file", lambda c: c.update(tls={"cert_file": cert}), "exit")
     add("tls-key-only-in-file", lambda c: c.update(tls={"cert_key_file": key}), "exit")
+    # the configuration that counts is the effective one: file merged with the command line
+    add("cli-name-without-dot", lambda c: None, "exit", ["-n", "nodot"])
+    add("cli-name-repairs-file", lambda c: c.update(name="nodot"), "serve", ["-n", "cli.valid.test"])
+    add("cli-name-valid", lambda c: None, "serve", ["-n", "cli.valid.test"])
+    add("cli-network-override", lambda c: None, "serve", ["-N", "OtherNet"])
     add("tls-cert-only-cli", lambda c: None, "exit", ["-C", cert])
     add("tls-key-only-cli", lambda c: None, "exit", ["-K", key])
     for k in ("name", "admin_info", "info", "listen", "port", "network", "ping_timeout", "pong_timeout", "motd",
